@@ -658,7 +658,8 @@ Lemma rem_mid r (a b : list nat) : NoDup (a ++ r :: b) -> rem r (a ++ r :: b) = 
 Proof.
   intros H. assert (H2 := NoDup_remove_2 _ _ _ H). rewrite in_app_iff in H2.
   rewrite rem_app. cbn. rewrite Nat.eqb_refl. cbn.
-  rewrite !rem_notin; tauto.
+  change (filter (fun x : nat => negb (x =? r)) b) with (rem r b).
+  rewrite (rem_notin r a), (rem_notin r b); tauto.
 Qed.
 
 (* ---------------- workers ---------------- *)
@@ -690,13 +691,13 @@ Lemma InvX_wloop c t w aux :
 Proof.
   intros Ht fuel. induction fuel as [|fuel IH]; intros s H Hw; cbn [wloop].
   - destruct (wait_pred c s).
-    + eapply InvX_shape; [|reflexivity|exact H].
+    + apply InvX_shape with (s := s); [|reflexivity|exact H].
       eapply shape_trans; [apply shape_set_idle|]. eapply shape_trans; [apply shape_sync|].
       apply shape_set_worker; [exact Hw|exact I].
-    + eapply InvX_shape; [|reflexivity|exact H].
+    + apply InvX_shape with (s := s); [|reflexivity|exact H].
       eapply shape_trans; [apply shape_sync|]. apply shape_set_worker; [exact Hw|exact I].
   - destruct (wait_pred c s).
-    { eapply InvX_shape; [|reflexivity|exact H].
+    { apply InvX_shape with (s := s); [|reflexivity|exact H].
       eapply shape_trans; [apply shape_set_idle|]. eapply shape_trans; [apply shape_sync|].
       apply shape_set_worker; [exact Hw|exact I]. }
     destruct (wq s) as [|i rest] eqn:Ewq; [exact H|].
@@ -706,14 +707,15 @@ Proof.
       apply InvX_start with (s := s); auto.
       * unfold Q. rewrite Ewq. left. reflexivity.
       * apply shape_set_wq.
-      * unfold Q in *. rewrite Ewq in *. cbn in *.
-        rewrite Nat.eqb_refl. cbn. rewrite rem_notin; [reflexivity|].
-        inversion Hnd; assumption.
+      * unfold Q in *. rewrite Ewq in *.
+        change (wq_reqs rest ++ sp s = rem r ((r :: wq_reqs rest) ++ sp s)).
+        change (NoDup ((r :: wq_reqs rest) ++ sp s)) in Hnd.
+        symmetry. apply (rem_mid r [] (wq_reqs rest ++ sp s)). exact Hnd.
     + destruct (Nat.leb (threshold (c_n c)) (running s)).
-      * apply IH; [|exact Hw]. eapply InvX_shape; [apply shape_set_wq| |exact H].
+      * apply IH; [|exact Hw]. apply InvX_shape with (s := s); [apply shape_set_wq| |exact H].
         unfold Q. cbn. rewrite Ewq, wq_reqs_app. cbn. rewrite app_nil_r. reflexivity.
       * destruct (sp s) as [|r sp'] eqn:Esp.
-        { apply IH; [|exact Hw]. eapply InvX_shape; [apply shape_set_wq| |exact H].
+        { apply IH; [|exact Hw]. apply InvX_shape with (s := s); [apply shape_set_wq| |exact H].
           unfold Q. cbn. rewrite Ewq. reflexivity. }
         assert (HQ : Q s = wq_reqs rest ++ r :: sp').
         { unfold Q. rewrite Ewq, Esp. reflexivity. }
@@ -733,10 +735,55 @@ Proof.
                     (wq (set_sp (set_running (set_wq s rest) (S (running s))) (r2 :: sp2)) ++ [ISlowMsg])))
                  as [_ [X1 X2]].
               rewrite X1, X2. cbn. rewrite wq_reqs_app. cbn. rewrite app_nil_r. reflexivity.
-    + eapply InvX_shape; [| |exact H].
+    + apply InvX_shape with (s := s); [| |exact H].
       * eapply shape_trans; [apply signal_facts|]. eapply shape_trans; [apply shape_sync|].
         apply shape_set_worker; [|exact I].
         destruct (signal_facts c t aux s) as [[_ [_ [_ [X _]]]] _].
         unfold runof, runof_f in *. cbn. rewrite X. exact Hw.
       * unfold Q. cbn. destruct (signal_facts c t aux s) as [_ [X1 X2]]. rewrite X1, X2. reflexivity.
+Qed.
+
+Lemma InvX_complete c t w r slow s :
+  InvX c s -> wk s w = WRun r slow -> InvX c (complete t w r slow s).
+Proof.
+  intros H Ew. unfold InvX.
+  set (l := r_loop (reqs s r)).
+  eapply IV_ext;
+    [apply (IV_complete c (Q s) (nreq s) (reqs s) (runof s) (lp s)
+              (ESync t (SUnlockQ l) :: ESync t (SLockQ l) :: trace s) r w l
+              (lset_pending (lset_wq (lp s l) (l_wq (lp s l) ++ [r])) true));
+     [apply IV_neutral; [exact I|]; apply IV_neutral; [exact I|]; exact H | ..] | ..];
+    try reflexivity.
+  - unfold runof, runof_f. rewrite Ew. reflexivity.
+  - intros r0. cbn. unfold updf, with_ws. rewrite Nat.eqb_refl.
+    destruct (Nat.eqb r0 r); reflexivity.
+  - intros w0. unfold complete. cbv zeta. rewrite runof_set_worker. reflexivity.
+Qed.
+
+Lemma Some_inj {A} (a b : A) : Some a = Some b -> a = b.
+Proof. congruence. Qed.
+
+Lemma InvX_wstep c t w aux s s' :
+  c_loops c <= t < c_loops c + c_n c -> InvX c s -> wstep c t w aux s = Some s' -> InvX c s'.
+Proof.
+  intros Ht H. unfold wstep. destruct (wk s w) as [slow|sg|r slow|] eqn:Ew.
+  - destruct (is_free (gmutex s)); [|discriminate]. intros E. apply Some_inj in E. subst s'.
+    assert (Hw : runof s w = None) by (unfold runof, runof_f; rewrite Ew; reflexivity).
+    apply InvX_wloop; auto.
+    + apply InvX_shape with (s := s); [|destruct slow; reflexivity|exact H].
+      destruct slow.
+      * eapply shape_trans; [apply shape_sync|]. eapply shape_trans; [apply shape_set_running|].
+        apply shape_set_worker; [exact Hw|exact I].
+      * eapply shape_trans; [apply shape_sync|]. apply shape_set_worker; [exact Hw|exact I].
+    + rewrite runof_set_worker. unfold updf. rewrite Nat.eqb_refl. reflexivity.
+  - destruct ((sg || Nat.eqb aux 1) && is_free (gmutex s)); [|discriminate].
+    intros E. apply Some_inj in E. subst s'.
+    assert (Hw : runof s w = None) by (unfold runof, runof_f; rewrite Ew; reflexivity).
+    apply InvX_wloop; auto.
+    + apply InvX_shape with (s := s); [|reflexivity|exact H].
+      eapply shape_trans; [apply shape_sync|]. eapply shape_trans; [apply shape_set_idle|].
+      apply shape_set_worker; [exact Hw|exact I].
+    + rewrite runof_set_worker. unfold updf. rewrite Nat.eqb_refl. reflexivity.
+  - intros E. apply Some_inj in E. subst s'. apply InvX_complete; assumption.
+  - discriminate.
 Qed.
